@@ -179,6 +179,9 @@ def _ctparse(
         labels = _get_labels(txt)
         # clear raw text of labels so what follows works properly
         txt = re.sub('#[a-zA-Z0-9_-]+','', txt).strip()
+        # a label removed from the middle leaves two blanks behind: multi-word
+        # patterns ("end of the year") must still see single blanks
+        txt = re.sub(' {2,}', ' ', txt)
 
         logger.debug("=" * 80)
         logger.debug("-> matching regular expressions")
